@@ -26,6 +26,9 @@ def run_shard(ctx, spec):
     rnd = random.Random(ctx.seed * 1237 + spec['i'])
     ex = hj.Explorer(mon, rnd)
     ex.float_heights = bool(spec.get('float'))
+    hj.KW['on'] = bool(spec.get('kw'))
+    if spec.get('kw'):
+        ctx.count('eval.shards-with-start-list-details')
     if spec['w'] == 'bfs':
         ex.bfs(spec['nj'], spec['reg'], spec['jo'], part=spec['i'], nparts=spec['n'], split_depth=spec.get('split', 3), legal_only=True,
                max_states=spec.get('max_states'))
@@ -57,6 +60,7 @@ def shards(tier, seed):
         s += [{'w': 'random', 'n': 500, 'i': 60 + i, 'float': True} for i in range(3)]
         s += [{'w': 'jumpoff', 'n': 700, 'i': 80 + i} for i in range(6)]
         s += [{'w': 'jumpoff', 'n': 700, 'i': 90 + i, 'deep': True} for i in range(4)]
+        s += [{'w': 'random', 'n': 400, 'i': 96, 'kw': True}, {'w': 'jumpoff', 'n': 500, 'i': 97, 'deep': True, 'kw': True}]
         return s
     s = [{'w': 'bfs', 'nj': 2, 'reg': 3, 'jo': 2, 'i': i, 'n': 32, 'split': 4, 'max_states': 150000} for i in range(32)]
     s += [{'w': 'bfs', 'nj': 3, 'reg': 2, 'jo': 2, 'i': i, 'n': 48, 'split': 4, 'max_states': 150000} for i in range(48)]
@@ -64,6 +68,7 @@ def shards(tier, seed):
     s += [{'w': 'random', 'n': 3200, 'i': 220 + i, 'float': True} for i in range(8)]
     s += [{'w': 'jumpoff', 'n': 6000, 'i': 300 + i} for i in range(16)]
     s += [{'w': 'jumpoff', 'n': 6000, 'i': 320 + i, 'deep': True} for i in range(16)]
+    s += [{'w': 'random', 'n': 3200, 'i': 340 + i, 'kw': True} for i in range(2)] + [{'w': 'jumpoff', 'n': 4000, 'i': 344 + i, 'deep': True, 'kw': True} for i in range(2)]
     return s
 
 
